@@ -14,7 +14,8 @@ ID = "C09"
 TAG = "types"
 EXTRACT = "FA/Extract/ExtractTypes.v"
 DRIVER = "driver_types.ml"
-COQ_FILES = ["FA/Proofs/TypeFollowFacts.v", "FA/Proofs/TypeFollowCallbacks.v", "FA/Properties/C09.v"]
+COQ_FILES = ["FA/Proofs/TypeFollowFacts.v", "FA/Proofs/TypeFollowCallbacks.v", "FA/Proofs/TypeFollowResolve.v",
+             "FA/Proofs/TypeFollowSites.v", "FA/Proofs/TypeFollowEmitted.v", "FA/Properties/C09.v"]
 
 LEVEL = ("Coq theorems over the executable model `follow` (events = callback invocations with their call sites and the MetaData "
          "each attaches, in order): callbacks at a method call site are the class callback then the method callback, each "
